@@ -127,41 +127,153 @@ theorem C04_registry_aggregates :
 
 /-! ### preservation through evaluation -/
 
-/-- a compiled expression whose recorded result types are the ones the semantics' typing
-    table gives for its operands (what compilation over an agreeing registry produces) -/
+/-- the operand types BETWEEN is declared for -/
+def betweenTys (a b c : Ty) : Bool :=
+  (isNumTy a && isNumTy b && isNumTy c) || (a == .date && b == .date && c == .date) || (a == .str && b == .str && c == .str)
+
+mutual
 def wellTyped : CExpr → Bool
   | .const v ty => v.hasTy ty
   | .col _ _ _ => true
   | .unop op s e ty => wellTyped e && (op != .neg || s) &&
       (semUnOutTy op e.ty == some ty || (e.ty == .obj && semUnOutTy op .obj == some ty))
   | .binop op l r ty => wellTyped l && wellTyped r && (semOutTy op l.ty r.ty == some ty)
+  | .between e lo hi => wellTyped e && wellTyped lo && wellTyped hi && betweenTys e.ty lo.ty hi.ty
+  | .and es => wellTypedL es
+  | .or es => wellTypedL es
+  | .coalesce es t => wellTypedL es && sameTyL t es
   | _ => false
+def wellTypedL : List CExpr → Bool
+  | [] => true
+  | e :: es => wellTyped e && wellTypedL es
+def sameTyL (t : Ty) : List CExpr → Bool
+  | [] => true
+  | e :: es => (e.ty == t) && sameTyL t es
+end
 
-/-- rows conform to the declared column types -/
+mutual
 def rowConforms : CExpr → Row → Prop
   | .col i _ ty, row => (row.getD i .null).hasTy ty = true
   | .unop _ _ e _, row => rowConforms e row
   | .binop _ l r _, row => rowConforms l row ∧ rowConforms r row
+  | .between a b c, row => rowConforms a row ∧ rowConforms b row ∧ rowConforms c row
+  | .and es, row => rowConformsL es row
+  | .or es, row => rowConformsL es row
+  | .coalesce es _, row => rowConformsL es row
   | _, _ => True
+def rowConformsL : List CExpr → Row → Prop
+  | [], _ => True
+  | e :: es, row => rowConforms e row ∧ rowConformsL es row
+end
 
-/-- the claim of preservation + progress for one expression -/
-def Sound (e : CExpr) (env : AggEnv) (row : Row) : Prop :=
-  match eval env row e with
-  | .ok v => v.hasTy e.ty = true
+theorem classRank_num (a : Value) (t : Ty) (h : a.hasTy t = true) (hn : a.isNull = false) (ht : isNumTy t = true) :
+    classRank a = 1 := by
+  cases t <;> cases a <;> simp_all [isNumTy, Value.hasTy, Value.isNull, classRank, sortKey, SortKey.rank]
+theorem classRank_str (a : Value) (h : a.hasTy .str = true) (hn : a.isNull = false) : classRank a = 2 := by
+  cases a <;> simp_all [Value.hasTy, Value.isNull, classRank, sortKey, SortKey.rank]
+theorem classRank_date (a : Value) (h : a.hasTy .date = true) (hn : a.isNull = false) : classRank a = 3 := by
+  cases a <;> simp_all [Value.hasTy, Value.isNull, classRank, sortKey, SortKey.rank]
+
+/-- BETWEEN over operands of the declared types -/
+theorem between_sound (ta tb tc : Ty) (a b c : Value) (ht : betweenTys ta tb tc = true)
+    (ha : a.hasTy ta = true) (hb : b.hasTy tb = true) (hc : c.hasTy tc = true)
+    (hna : a.isNull = false) (hnb : b.isNull = false) (hnc : c.isNull = false) :
+    ∃ r, semBetween a b c = .ok (.bool r) := by
+  unfold betweenTys at ht
+  simp only [Bool.or_eq_true, Bool.and_eq_true, beq_iff_eq] at ht
+  rcases ht with (⟨⟨h1, h2⟩, h3⟩ | ⟨⟨h1, h2⟩, h3⟩) | ⟨⟨h1, h2⟩, h3⟩
+  · exact C04_sem_sound_between a b c 1 (classRank_num a ta ha hna h1) (classRank_num b tb hb hnb h2)
+      (classRank_num c tc hc hnc h3) (by omega)
+  · subst h1 h2 h3
+    exact C04_sem_sound_between a b c 3 (classRank_date a ha hna) (classRank_date b hb hnb) (classRank_date c hc hnc) (by omega)
+  · subst h1 h2 h3
+    exact C04_sem_sound_between a b c 2 (classRank_str a ha hna) (classRank_str b hb hnb) (classRank_str c hc hnc) (by omega)
+
+/-- the outcome of an evaluation conforms to type `t` -/
+def Conf (t : Ty) (r : PyResult) : Prop :=
+  match r with
+  | .ok v => v.hasTy t = true
   | .error x => benignError x = true
 
-/-- **Preservation + progress** for operator trees over typed columns: the value is NULL or
-    an instance of the announced datatype, and no type error is raised. -/
+theorem evalAnd_conf (env : AggEnv) (row : Row) : ∀ es : List CExpr,
+    (∀ e ∈ es, Conf e.ty (eval env row e)) → Conf .bool (evalAnd env row es)
+  | [], _ => by simp [evalAnd, Conf, Value.hasTy]
+  | e :: es, h => by
+    have he := h e (List.mem_cons_self ..)
+    have ih := evalAnd_conf env row es (fun x hx => h x (List.mem_cons_of_mem _ hx))
+    simp only [evalAnd]
+    cases hev : eval env row e with
+    | error x => rw [hev] at he; exact he
+    | ok v =>
+      simp only
+      by_cases hn : v.isNull = true
+      · simp [hn, Conf, Value.hasTy]
+      · by_cases ht : (!v.truthy) = true
+        · simp [hn, ht, Conf, Value.hasTy]
+        · simp only [hn, ht, Bool.false_eq_true, if_false]; exact ih
+
+theorem evalOr_conf (env : AggEnv) (row : Row) : ∀ (es : List CExpr) (r : Value), r.hasTy .bool = true →
+    (∀ e ∈ es, Conf e.ty (eval env row e)) → Conf .bool (evalOr env row r es)
+  | [], r, hr, _ => by simpa [evalOr, Conf] using hr
+  | e :: es, r, hr, h => by
+    have he := h e (List.mem_cons_self ..)
+    simp only [evalOr]
+    cases hev : eval env row e with
+    | error x => rw [hev] at he; exact he
+    | ok v =>
+      simp only
+      by_cases ht : v.truthy = true
+      · simp [ht, Conf, Value.hasTy]
+      · simp only [ht, Bool.false_eq_true, if_false]
+        apply evalOr_conf env row es _ _ (fun x hx => h x (List.mem_cons_of_mem _ hx))
+        split
+        · simp [Value.hasTy]
+        · exact hr
+
+theorem evalCoalesce_conf (env : AggEnv) (row : Row) (t : Ty) : ∀ es : List CExpr, sameTyL t es = true →
+    (∀ e ∈ es, Conf e.ty (eval env row e)) → Conf t (evalCoalesce env row es)
+  | [], _, _ => by simp [evalCoalesce, Conf, Value.hasTy]
+  | e :: es, hs, h => by
+    simp only [sameTyL, Bool.and_eq_true, beq_iff_eq] at hs
+    have he := h e (List.mem_cons_self ..)
+    simp only [evalCoalesce]
+    cases hev : eval env row e with
+    | error x => rw [hev] at he; exact he
+    | ok v =>
+      simp only
+      by_cases hn : v.isNull = true
+      · simp only [hn, if_true]
+        exact evalCoalesce_conf env row t es hs.2 (fun x hx => h x (List.mem_cons_of_mem _ hx))
+      · simp only [hn, Bool.false_eq_true, if_false]
+        rw [hev, hs.1] at he; exact he
+
+
+def ConfL (env : AggEnv) (row : Row) : List CExpr → Prop
+  | [] => True
+  | e :: es => Conf e.ty (eval env row e) ∧ ConfL env row es
+
+theorem confL_mem (env : AggEnv) (row : Row) : ∀ es : List CExpr, ConfL env row es → ∀ e ∈ es, Conf e.ty (eval env row e)
+  | [], _, e, he => by cases he
+  | x :: xs, h, e, he => by
+    rcases List.mem_cons.mp he with rfl | h'
+    · exact h.1
+    · exact confL_mem env row xs h.2 e h'
+
+mutual
+/-- **Preservation + progress** for expression trees built from typed columns, constants, unary and binary operators,
+    BETWEEN, AND, OR and COALESCE: the value is NULL or an instance of the announced datatype (AND / OR / BETWEEN
+    announce bool whatever the operand types are), and no type error is raised. -/
 theorem C04_preservation (env : AggEnv) (row : Row) :
-    (e : CExpr) → wellTyped e = true → rowConforms e row → Sound e env row
-  | .const v ty, hw, _ => by simpa [Sound, eval, wellTyped, CExpr.ty] using hw
-  | .col i n ty, _, hr => by simpa [Sound, eval, rowConforms, CExpr.ty] using hr
+    (e : CExpr) → wellTyped e = true → rowConforms e row → Conf e.ty (eval env row e)
+  | .const v ty, hw, _ => by simpa [Conf, eval, wellTyped, CExpr.ty] using hw
+  | .col i n ty, _, hr => by simpa [Conf, eval, rowConforms, CExpr.ty] using hr
   | .binop op l r ty, hw, hr => by
     simp only [wellTyped, Bool.and_eq_true, beq_iff_eq] at hw
     obtain ⟨⟨hwl, hwr⟩, hty⟩ := hw
+    simp only [rowConforms] at hr
     have hl := C04_preservation env row l hwl hr.1
     have hrr := C04_preservation env row r hwr hr.2
-    unfold Sound at *
+    unfold Conf at *
     simp only [eval, CExpr.ty]
     cases hel : eval env row l with
     | error x => simpa [hel] using hl
@@ -182,8 +294,9 @@ theorem C04_preservation (env : AggEnv) (row : Row) :
   | .unop op s x ty, hw, hr => by
     simp only [wellTyped, Bool.and_eq_true, Bool.or_eq_true, beq_iff_eq, bne_iff_ne, ne_eq] at hw
     obtain ⟨⟨hwx, hsafe⟩, hty⟩ := hw
+    simp only [rowConforms] at hr
     have hx := C04_preservation env row x hwx hr
-    unfold Sound at *
+    unfold Conf at *
     simp only [eval, CExpr.ty]
     cases hex : eval env row x with
     | error e => simpa [hex] using hx
@@ -205,14 +318,201 @@ theorem C04_preservation (env : AggEnv) (row : Row) :
         · exact C04_sem_sound_unop op x.ty ty a hty hx hnn
         · have : a.hasTy .obj = true := by cases a <;> simp [Value.hasTy]
           exact C04_sem_sound_unop op .obj ty a hty this hnn
-  | .between _ _ _, hw, _ => by simp [wellTyped] at hw
-  | .and _, hw, _ => by simp [wellTyped] at hw
-  | .or _, hw, _ => by simp [wellTyped] at hw
-  | .coalesce _ _, hw, _ => by simp [wellTyped] at hw
+  | .between x lo hi, hw, hr => by
+    simp only [wellTyped, Bool.and_eq_true] at hw
+    obtain ⟨⟨⟨hwx, hwl⟩, hwh⟩, hty⟩ := hw
+    simp only [rowConforms] at hr
+    have hx := C04_preservation env row x hwx hr.1
+    have hl := C04_preservation env row lo hwl hr.2.1
+    have hh := C04_preservation env row hi hwh hr.2.2
+    unfold Conf at *
+    simp only [eval, CExpr.ty]
+    cases hex : eval env row x with
+    | error e => simpa [hex] using hx
+    | ok a =>
+      rw [hex] at hx
+      simp only at hx ⊢
+      cases hna : a.isNull
+      · simp only [Bool.false_eq_true, ↓reduceIte]
+        cases hel : eval env row lo with
+        | error e => simpa [hel] using hl
+        | ok b =>
+          rw [hel] at hl
+          simp only at hl ⊢
+          cases hnb : b.isNull
+          · simp only [Bool.false_eq_true, ↓reduceIte]
+            cases heh : eval env row hi with
+            | error e => simpa [heh] using hh
+            | ok c =>
+              rw [heh] at hh
+              simp only at hh ⊢
+              cases hnc : c.isNull
+              · simp only [Bool.false_eq_true, ↓reduceIte]
+                obtain ⟨r, hr⟩ := between_sound x.ty lo.ty hi.ty a b c hty hx hl hh hna hnb hnc
+                simp [hr, Value.hasTy]
+              · simp [Value.hasTy]
+          · simp [Value.hasTy]
+      · simp [Value.hasTy]
+  | .and es, hw, hr => by
+    simp only [wellTyped] at hw
+    simp only [rowConforms] at hr
+    simp only [eval, CExpr.ty]
+    exact evalAnd_conf env row es (confL_mem env row es (C04_preservationL env row es hw hr))
+  | .or es, hw, hr => by
+    simp only [wellTyped] at hw
+    simp only [rowConforms] at hr
+    simp only [eval, CExpr.ty]
+    exact evalOr_conf env row es (.bool false) (by simp [Value.hasTy]) (confL_mem env row es (C04_preservationL env row es hw hr))
+  | .coalesce es t, hw, hr => by
+    simp only [wellTyped, Bool.and_eq_true] at hw
+    simp only [rowConforms] at hr
+    simp only [eval, CExpr.ty]
+    exact evalCoalesce_conf env row t es hw.2 (confL_mem env row es (C04_preservationL env row es hw.1 hr))
   | .func _ _ _, hw, _ => by simp [wellTyped] at hw
   | .agg _ _ _ _ _, hw, _ => by simp [wellTyped] at hw
+theorem C04_preservationL (env : AggEnv) (row : Row) :
+    (es : List CExpr) → wellTypedL es = true → rowConformsL es row → ConfL env row es
+  | [], _, _ => trivial
+  | x :: xs, hw, hr => by
+    simp only [wellTypedL, Bool.and_eq_true] at hw
+    simp only [rowConformsL] at hr
+    exact ⟨C04_preservation env row x hw.1 hr.1, C04_preservationL env row xs hw.2 hr.2⟩
+end
+
+
+/-! ### the compiler only builds such nodes -/
+
+theorem lookupExact_mem (decls : List Decl) (name : String) (sig : List Ty) (d : Decl)
+    (h : lookupExact decls name sig = some d) : d ∈ decls ∧ d.name = name ∧ sigMatch d.intypes sig = true := by
+  unfold lookupExact at h
+  have h1 := List.find?_some h
+  have h2 := List.mem_of_find?_eq_some h
+  simp only [Bool.and_eq_true, beq_iff_eq] at h1
+  exact ⟨h2, h1.1, h1.2⟩
+
+/-- every BETWEEN overload of the registry REGENERATED from the code is over one comparable class -/
+theorem C04_registry_between :
+    (Gen.operators.filter (fun d => d.name == "Between")).all (fun d =>
+      match d.intypes with
+      | [a, b, c] => betweenTys a b c && a != .any && b != .any && c != .any
+      | _ => false) = true := by
+  decide +kernel
+
+/-- so a BETWEEN the compiler accepts is a well-typed node -/
+theorem C04_compileBetween_wellTyped (e lo hi n : CExpr) (h : compileBetween e lo hi = .ok n)
+    (he : wellTyped e = true) (hl : wellTyped lo = true) (hh : wellTyped hi = true) : wellTyped n = true := by
+  unfold compileBetween at h
+  cases hlk : lookupExact Gen.operators "Between" [e.ty, lo.ty, hi.ty] with
+  | none => rw [hlk] at h; cases h
+  | some d =>
+    rw [hlk] at h
+    simp only [Except.ok.injEq] at h
+    subst h
+    obtain ⟨hmem, hname, hsig⟩ := lookupExact_mem _ _ _ _ hlk
+    have hreg := List.all_eq_true.mp C04_registry_between d (List.mem_filter.mpr ⟨hmem, by simp [hname]⟩)
+    have hty : betweenTys e.ty lo.ty hi.ty = true := by
+      rcases hd : d.intypes with _ | ⟨a, _ | ⟨b, _ | ⟨c, _ | ⟨x, xs⟩⟩⟩⟩ <;> rw [hd] at hreg hsig <;>
+        simp only [Bool.false_eq_true] at hreg
+      simp only [sigMatch, tyMatch, Bool.and_eq_true, Bool.or_eq_true, beq_iff_eq, bne_iff_ne, ne_eq, Bool.and_true] at hsig hreg
+      obtain ⟨⟨⟨hb, ha⟩, hbb⟩, hc⟩ := hreg
+      rcases hsig with ⟨h1 | h1, h2 | h2, h3 | h3⟩ <;> first | exact absurd h1 ha | exact absurd h2 hbb | exact absurd h3 hc | skip
+      subst h1 h2 h3
+      exact hb
+    simp [wellTyped, he, hl, hh, hty]
+
+/-- COALESCE nodes the compiler accepts have uniformly typed arguments -/
+theorem C04_coalesce_wellTyped (args : List CExpr) (h : Nat) (n : CExpr) (h' : Nat)
+    (hc : compileCall "coalesce" args h = .ok (n, h')) (hw : wellTypedL args = true) : wellTyped n = true := by
+  unfold compileCall at hc
+  simp only [beq_self_eq_true, if_true] at hc
+  cases args with
+  | nil => cases hc
+  | cons a rest =>
+    simp only at hc
+    split at hc
+    · rename_i hall
+      simp only [Except.ok.injEq, Prod.mk.injEq] at hc
+      obtain ⟨rfl, _⟩ := hc
+      have : ∀ l : List CExpr, l.all (fun x => x.ty == a.ty) = true → sameTyL a.ty l = true := by
+        intro l
+        induction l with
+        | nil => intro _; rfl
+        | cons x xs ih =>
+          intro hx
+          simp only [List.all_cons, Bool.and_eq_true] at hx
+          simp [sameTyL, hx.1, ih hx.2]
+      simp [wellTyped, hw, this _ hall]
+    · cases hc
+
+
+def modelledTys : List Ty := [.int, .dec, .str, .date, .interval]
+def plainOps : List BinOp := [.eq, .ne, .gt, .ge, .lt, .le, .match, .notmatch, .add, .sub, .mul, .div, .mod]
+
+/-- whatever overload `_binaryop` finds for operands of modelled types announces the type the semantics returns -/
+theorem C04_binop_lookup_agrees :
+    plainOps.all (fun op => modelledTys.all (fun ta => modelledTys.all (fun tb =>
+      match lookupExact Gen.operators op.className [ta, tb] with
+      | some d => semOutTy op ta tb == some (d.outTy [ta, tb])
+      | none => true))) = true := by
+  decide +kernel
+
+theorem mem_modelledTys (t : Ty) (h : modelledTy t = true) : t ∈ modelledTys := by
+  unfold modelledTy at h
+  simp only [Bool.or_eq_true, beq_iff_eq] at h
+  rcases h with (((h | h) | h) | h) | h <;> subst h <;> simp [modelledTys]
+
+theorem mem_plainOps (op : BinOp) (h1 : op ≠ .in) (h2 : op ≠ .notin) : op ∈ plainOps := by
+  cases op <;> simp_all [plainOps]
+
+/-- a binary operator node the compiler builds over well-typed operands of modelled types is well typed — also when
+    it folds the node into a constant (the constant is a value of the announced type, by preservation) -/
+theorem C04_compileBinop_wellTyped (op : BinOp) (l r n : CExpr) (h : compileBinop op l r = .ok n)
+    (h1 : op ≠ .in) (h2 : op ≠ .notin)
+    (hl : wellTyped l = true) (hr : wellTyped r = true) (hml : modelledTy l.ty = true) (hmr : modelledTy r.ty = true) :
+    wellTyped n = true := by
+  have hreg := List.all_eq_true.mp (List.all_eq_true.mp (List.all_eq_true.mp C04_binop_lookup_agrees op (mem_plainOps op h1 h2))
+    l.ty (mem_modelledTys _ hml)) r.ty (mem_modelledTys _ hmr)
+  have hlo : (l.ty == .obj) = false := by
+    unfold modelledTy at hml; cases hlt : l.ty <;> simp_all
+  have hro : (r.ty == .obj) = false := by
+    unfold modelledTy at hmr; cases hrt : r.ty <;> simp_all
+  unfold compileBinop at h
+  simp only at h
+  cases hlk : lookupExact Gen.operators op.className [l.ty, r.ty] with
+  | none =>
+    rw [hlk] at h
+    simp [hlo, hro] at h
+  | some d =>
+    rw [hlk] at h hreg
+    simp only at h hreg
+    have hty : semOutTy op l.ty r.ty = some (d.outTy [l.ty, r.ty]) := by simpa using hreg
+    have hnode : wellTyped (.binop op l r (d.outTy [l.ty, r.ty])) = true := by
+      simp [wellTyped, hl, hr, hty]
+    by_cases hc : (l.isConst && r.isConst) = true
+    · simp only [hc, if_true] at h
+      unfold foldConst at h
+      cases hev : eval [] [] (.binop op l r (d.outTy [l.ty, r.ty])) with
+      | error x => rw [hev] at h; cases h
+      | ok v =>
+        rw [hev] at h
+        simp only [Except.ok.injEq] at h
+        subst h
+        have hrc : rowConforms (.binop op l r (d.outTy [l.ty, r.ty])) [] := by
+          simp only [Bool.and_eq_true] at hc
+          cases l <;> cases r <;> simp_all [CExpr.isConst, rowConforms]
+        have := C04_preservation [] [] _ hnode hrc
+        rw [hev] at this
+        simpa [wellTyped, Conf, CExpr.ty] using this
+    · simp only [hc] at h
+      simp only [Bool.false_eq_true, if_false, Except.ok.injEq] at h
+      subst h
+      exact hnode
 
 /-! ### non-vacuity -/
 example : wellTyped (.binop .add (.col 0 "i" .int) (.binop .div (.col 1 "d" .dec) (.const (.int 2) .int) .dec) .dec) = true := by rfl
+example : wellTyped (.and [.col 0 "i" .int, .between (.col 1 "d" .dec) (.const (.int 1) .int) (.col 0 "i" .int),
+    .coalesce [.col 2 "s" .str, .const (.str "x") .str] .str]) = true := by rfl
+/-- the AND of a falsy non-boolean operand is FALSE (a bool), never the operand itself -/
+example : eval [] [.int 0] (.and [.col 0 "i" .int, .const (.bool true) .bool]) = .ok (.bool false) := by rfl
 
 end Bql.C04
